@@ -128,10 +128,11 @@ Section WriterGeneral.
 
   Lemma strict_validate_ok s r es :
     rec_validate tbl Strict (Some s) None [] r = Ok es ->
-    rec_asserts_ok r = true /\ rec_validate_errors tbl (Some s) None r = [].
+    rec_sync_errors None r = [] /\ rec_validate_errors tbl (Some s) None r = [].
   Proof.
-    unfold rec_validate. destruct (rec_asserts_ok r); [|discriminate]. simpl.
-    unfold process_errors. destruct (rec_validate_errors tbl (Some s) None r); [auto|discriminate].
+    unfold rec_validate, process_errors. simpl.
+    destruct (rec_validate_errors tbl (Some s) None r ++ rec_sync_errors None r)%list eqn:E; [|discriminate].
+    apply app_nil_both in E as [E1 E2]. auto.
   Qed.
 
   Lemma combine_seq_nth {X} (l : list X) : forall st n x,
@@ -143,14 +144,15 @@ Section WriterGeneral.
   Qed.
 
   Lemma asserts_positions (r : crec) n c :
-    rec_asserts_ok r = true -> existsb is_none (rlist r) = false ->
+    rec_sync_errors None r = [] -> existsb is_none (rlist r) = false ->
     nth_error (rlist r) n = Some (Some c) -> cidx c = Some (Z.of_nat n).
   Proof.
-    unfold rec_asserts_ok. intros H Hn Hs. rewrite Hn in H.
-    apply andb_true_iff in H as [_ H]. rewrite forallb_forall in H.
+    unfold rec_sync_errors. intros H Hn Hs. rewrite Hn in H.
+    apply app_nil_both in H as [_ H].
     pose proof (combine_seq_nth (rlist r) 0 n (Some c) Hs) as Hin. simpl in Hin.
-    specialize (H _ Hin). simpl in H. apply andb_true_iff in H as [H _].
-    destruct (cidx c) as [i|]; [|discriminate]. apply Z.eqb_eq in H. now subst.
+    pose proof (flat_map_nil _ _ _ H Hin) as F. simpl in F.
+    destruct (cidx c) as [i|]; [|discriminate].
+    destruct (Z.eqb i (Z.of_nat n)) eqn:E; [|discriminate]. apply Z.eqb_eq in E. now subst.
   Qed.
 
   Lemma scheme_index_ge : forall (s : scheme) k st i, scheme_index s k st = Some i -> (st <= i)%nat.
